@@ -214,6 +214,9 @@ ThreadProgs == {FlatProg(m, 3) : m \in Modes} \cup {NestedProg(m, ck, 2) : m \in
 \* at least one nested participant
 ThreadFamily2 == {Par2(p, q) : p \in {NestedProg(m, ck, 2) : m \in [1..2 -> Modes], ck \in {"var", "const"}}, q \in ThreadProgs}
 ThreadFamily2Small == {Par2(NestedProg(m, ck, 2), FlatProg(mm, 3)) : m \in {<<"vjp", "vjp">>, <<"jvp", "vjp">>}, ck \in {"var", "const"}, mm \in Modes}
+\* every schedule of these is exported in the thorough tier: one nested thread against a flat or a second-order thread
+ThreadFamily2Med == {Par2(NestedProg(m, ck, 2), q) : m \in [1..2 -> Modes], ck \in {"var", "const"},
+                                                     q \in {FlatProg(mm, 3) : mm \in Modes} \cup {HoProgram(2, <<"jvp", "vjp">>, 3, 2)}}
 ThreadFamily3 == {Par3(NestedProg(<<"vjp", "vjp">>, ck, 2), FlatProg(m, 3), HoProgram(2, <<m, "vjp">>, 3, 2)) : ck \in {"var", "const"}, m \in Modes}
 
 \* ---------------------------------------------------------------- user-defined primitives (C17)
